@@ -5,7 +5,7 @@ from odata_query import ast
 from odata_query.roundtrip import AstToODataVisitor
 from odata_query.grammar import ODataLexer, ODataParser
 
-PROP_MODS = ["ODataVerif.Tie.PrinterPrecedence", "ODataVerif.Tie.ParserTables", "ODataVerif.Props.C13", "ODataVerif.Props.C13Roundtrip", "ODataVerif.Props.C13Text", "ODataVerif.Props.C10Image"]
+PROP_MODS = ["ODataVerif.Props.C13Accepted", "ODataVerif.Tie.PrinterPrecedence", "ODataVerif.Tie.ParserTables", "ODataVerif.Props.C13", "ODataVerif.Props.C13Roundtrip", "ODataVerif.Props.C13Text", "ODataVerif.Props.C10Image"]
 
 def real_render(node):
     try:
@@ -72,7 +72,12 @@ def run(ctx):
     g = gens_ast.AstGen(rng)
     for _ in range(8000 if ctx.thorough else 1500):
         nodes.append(g.gen(rng.randint(1, 7)))
-    for f in gens.VALID_FILTERS + gens.QUOTED_LITERAL_FILTERS:
+    # accepted TEXTS whose path segments carry a namespace (the parser keeps only the segment's name): with ordinary names, and with names that are
+    # reserved words or start with a digit once the namespace is gone (KNOWN FINDING C13-path-namespace: Props/C13Accepted.lean `accepted_lexable_original_false`)
+    NS_PATH_TEXTS = ["x/a.b eq 1", "x/a.b/c.d eq x/e.f", "n.a/m.b/c eq 1", "x/ns.kids/any(k: k/m.v eq 1)", "f.g(x/a.b)", "x/a.eq eq 1", "x/a.add eq 1", "x/a.In eq 1",
+                     "x/a.true eq 1", "x/a.FALSE eq 1", "x/a.null eq 1", "x/a.any eq 1", "x/a.all eq 1", "x/a.not eq 1", "x/a.1 eq 1", "x/a.1b eq 2", "a.true/b/c eq 1", "a.null/b eq 1",
+                     "x/a.2020 eq 1", "x/y/a.true/z eq 1", "k/any(v: v/a.null eq 1)"]
+    for f in gens.VALID_FILTERS + gens.QUOTED_LITERAL_FILTERS + NS_PATH_TEXTS:
         try:
             nodes.append(impl.real_parse_ast(f))
         except Exception:  # noqa
@@ -149,4 +154,23 @@ def sig_of(nd, why):
         return False
     if has_not_ident(nd):
         return "C13:roundtrip.py:visit_Identifier:identifier-named-not"
+    # a path segment / path root whose name is a reserved word or starts with a digit: only reachable by dropping the namespace of `ns.true`, `ns.1`
+    def reserved(name):
+        return name.lower() in ("true", "false", "null", "any", "all", "not") or name[:1].isdigit()
+    def has_reserved_segment(n):
+        if isinstance(n, ast.Attribute) and reserved(n.attr):
+            return True
+        if isinstance(n, ast.Attribute) and isinstance(n.owner, ast.Identifier) and not n.owner.namespace and reserved(n.owner.name):
+            return True
+        if dataclasses.is_dataclass(n):
+            for f in dataclasses.fields(n):
+                v = getattr(n, f.name)
+                if isinstance(v, list):
+                    if any(has_reserved_segment(x) for x in v):
+                        return True
+                elif dataclasses.is_dataclass(v) and has_reserved_segment(v):
+                    return True
+        return False
+    if has_reserved_segment(nd):
+        return "C13:grammar.py:property_path_expr:namespace-of-path-segment-dropped"
     return "C13:" + why.split(" ")[0] + ":" + type(nd).__name__
